@@ -133,6 +133,7 @@ class Interp:
         self.inlined: set[str] = set()
         self.float_mode = ex.float_mode
         self.call_log = []
+        self.no_subst = False
 
     # ================================================================== helpers
     def decide(self, t):
@@ -331,7 +332,7 @@ class Interp:
             sub = self.subst.get(f)
         except TypeError:
             sub = None
-        if sub is not None:
+        if sub is not None and not self.no_subst:
             return self._call_subst(sub, args, kwargs)
         intr = M.INTRINSICS.get(getattr(f, "__name__", None)) if getattr(f, "__module__", None) == "pyvc.api" else None
         if intr is not None:
@@ -478,7 +479,7 @@ class Interp:
             sub = self.subst.get(f)
         except TypeError:
             sub = None
-        if sub is not None and sub is not f:
+        if sub is not None and sub is not f and not self.no_subst:
             return self._call_subst(sub, args, kwargs)
         node, _path = front.func_ast(f)
         if isinstance(node, ast.AsyncFunctionDef):
